@@ -4,8 +4,8 @@ import os
 from vlib import cN, cNhex, cbool, clist, copt
 
 ID = "C16"
-PROPERTIES_V = ["theories/Properties/C16.v"]
-MAKE_TARGETS = ["theories/Properties/C16.vo", "theories/Model/C16Cases.vo"]
+PROPERTIES_V = ["theories/Properties/C16.v", "theories/Properties/C16Fep.v"]
+MAKE_TARGETS = ["theories/Properties/C16.vo", "theories/Model/C16Cases.vo", "theories/Properties/C16Fep.vo", "theories/Model/C16FepCases.vo"]
 HARNESS = "c16"
 CASES_IMPORTS = "From Coq Require Import NArith List.\nFrom Verif Require Import Model.GerIndex Model.C16Cases."
 CASE_TYPE = "case16"
@@ -29,10 +29,13 @@ ASSUMPTIONS = [
     "k lookups of a root) is scripted and the model treats the downloader's retry loop as waiting for the answer; RPC errors are not scripted",
     "SQLite (transactions, ORDER BY, FK cascade), go-ethereum ABI log parsing and the goroutine/channel plumbing of sync.EVMDriver "
     "are exercised by the correspondence only",
-    "FEP mode (evmdownloader_fep.go, contract polling) is NOT covered; only the processor it shares with PP mode is",
+    "FEP mode (evmdownloader_fep.go): globalExitRootMap is read at the latest block; the scripted node answers it for the tip of "
+    "the last poll, i.e. the race 'the tip advances between the poll and the eth_call' is not exercised; completeness in FEP mode "
+    "is stated under `fvisible` (the L1 info tree syncer holds, at every poll, the leaves injected by the polled tip)",
 ]
 TRUSTED_EXTRA = [
-    "harness/c16 scripted L2 RPC client (HeaderByNumber / FilterLogs / ChainID), fake reorg-detector subscription and the no-op "
+    "harness/c16 scripted L2 RPC client (HeaderByNumber / FilterLogs / ChainID; in FEP mode eth_call of globalExitRootMap and a "
+    "scripted L1 info tree syncer), fake reorg-detector subscription and the no-op "
     "reorg notification (block 2^62) used as a quiescence barrier before each observation",
 ]
 
@@ -223,9 +226,11 @@ def distribution(outs):
 
 
 def extra_checks(chk):
-    """For the record: does the implementation still behave like the loop AS WRITTEN TODAY (dl_current)?"""
+    """FEP-mode part, then, for the record: does the implementation still behave like the loop AS WRITTEN TODAY (dl_current)?"""
     import json
     import vlib
+    import c16_fep
+    c16_fep.run_part(chk)
     wd = os.path.join(vlib.BUILD, ID)
     outs = []
     for n in sorted(os.listdir(wd)) if os.path.isdir(wd) else []:
@@ -252,7 +257,10 @@ LEVEL_TEXT = ("Kernel-checked theorems over an executable model of the PP downlo
               "removed since, index >= X) without any further hypothesis; it is complete and minimal whenever no reorg undoes an already "
               "processed removal; the repaired downloader delivers every event block of [from, highest tip] exactly once in order, also "
               "across restarts. The same statements are REFUTED, with computed witnesses, for the Download loop as written today "
-              "(fetches [tip, tip] only) and completeness is refuted for reorgs that undo a processed removal (destructive DELETE).")
+              "(fetches [tip, tip] only) and completeness is refuted for reorgs that undo a processed removal (destructive DELETE). "
+              "FEP mode (contract polling, evmdownloader_fep.go): an invariant of (chain, store) kept by every polled block, restart "
+              "and reorg gives soundness for ALL runs and completeness whenever the L1 info tree syncer holds the injected leaves at "
+              "every poll; the real FEP downloader + driver + processor are compared with that model on generated runs.")
 LEVEL_NOTE = ("Trusted: Coq kernel + vm_compute; the hand transcription of evmdownloader_pp.go / evmdriver.go / processor.go (validated "
               "on every run by driving the real downloader, driver and processor against a scripted L2 RPC and comparing delivered "
               "blocks, table content, last processed block and every query answer); tools/gofacts for DDL/SQL text; SQLite; the "
